@@ -69,6 +69,28 @@ def _stacking(ck: Check, repo: Repo) -> None:
                              "values land on another agent's observations and actions (e.g. agent_10 sorts before agent_2)",
                       construct=f"{q}: agent iteration {short(it, 50)}")
     ck.floor("C17.5", n, 4, "iterations over the per-agent dictionary in the two stacking helpers")
+    # the stacking axis reaches the members of Dict / Tuple components: every recursive call passes `dim` on
+    vz = repo.fn(AU, "vectorize_experiences_by_agent")
+    rec = [c for c in calls_in(vz.node, nested=True) if call_name(c) == "vectorize_experiences_by_agent"]
+    for c in rec:
+        d = get_kw(c, "dim", 1)
+        ck.ob("C17.5", vz, c, d is not None and dotted(d) == "dim", "vectorize_experiences_by_agent: the recursive call for a Dict / Tuple member stacks on the caller's axis (dim=dim)",
+              detail="`dim` is not passed on: the members are stacked on the default axis 1 while a plain component with dim=0 is stacked agent-first — the bootstrap values of "
+                     "Tuple / Dict observations come out environment-major",
+              construct=f"vectorize_experiences_by_agent: recursion {short(c, 50)}")
+    ck.floor("C17.5", len(rec), 2, "recursive calls of vectorize_experiences_by_agent (Dict and Tuple members)", fn=vz)
+    # the bootstrap observation is prepared exactly like the rollout observations
+    lif = repo.fn("agilerl.algorithms.ippo", "IPPO._learn_individual")
+    pcalls = [c for c in calls_in(lif.node, nested=True) if call_name(c) == "preprocess_observation"]
+    for c in pcalls:
+        ni = get_kw(c, "normalize_images", 3)
+        dv = get_kw(c, "device", 2)
+        ck.ob("C17.5", lif, c, ni is not None and dotted(ni) == "self.normalize_images" and dv is not None and dotted(dv) == "self.device",
+              "IPPO._learn_individual: every observation batch (rollout and bootstrap) is prepared with the agent's own device and normalize_images",
+              detail=f"normalize_images = {short(ni, 30) if ni is not None else 'not passed (defaults to True)'}: the critic's bootstrap value is computed on a differently scaled image than "
+                     "every other value of the rollout",
+              construct=f"IPPO._learn_individual: {short(c, 60)}")
+    ck.floor("C17.5", len(pcalls), 2, "preprocess_observation calls in IPPO._learn_individual", fn=lif)
     asm = repo.fn("agilerl.algorithms.ippo", "IPPO.assemble_shared_inputs")
     loops = [l for l in walk_no_nested(asm.node) if isinstance(l, ast.For) and any(isinstance(a, ast.Assign) and isinstance(a.targets[0], ast.Subscript) and isinstance(a.targets[0].value, ast.Subscript)
                                                                                    for a in ast.walk(l))]
@@ -577,6 +599,8 @@ VARIANTS = [
     ("ippo-group-in-dict-order", _IPPO, "        for agent_id in self.agent_ids:\n            if agent_id not in input:\n                continue\n", "        for agent_id in input:\n", "fire", "C17.5"),
     ("stack-agents-sorted", "agilerl/utils/algo_utils.py", "            for agent_id in experiences.keys()\n        ]\n        stacked_tensor = torch.stack(tensors, dim=dim)", "            for agent_id in sorted(experiences.keys())\n        ]\n        stacked_tensor = torch.stack(tensors, dim=dim)", "fire", "C17.5"),
     ("stack-agents-plain-dict-iteration-ok", "agilerl/utils/algo_utils.py", "            for agent_id in experiences.keys()\n        ]\n        stacked_tensor = torch.stack(tensors, dim=dim)", "            for agent_id in experiences\n        ]\n        stacked_tensor = torch.stack(tensors, dim=dim)", "silent", None),
+    ("stack-tuple-members-on-default-axis", "agilerl/utils/algo_utils.py", "                {agent_id: experiences[agent_id][i] for agent_id in experiences},\n                dim=dim,\n", "                {agent_id: experiences[agent_id][i] for agent_id in experiences},\n", "fire", "C17.5"),
+    ("ippo-bootstrap-observation-default-normalisation", _IPPO, "            next_state = preprocess_observation(\n                next_state, obs_space, self.device, self.normalize_images\n            )", "            next_state = preprocess_observation(next_state, obs_space, self.device)", "fire", "C17.5"),
     ("ippo-time-major-logprobs", _IPPO, "        log_probs = agent_major(log_probs)\n", "        log_probs = log_probs.reshape((-1,))\n", "fire", "C17.4"),
     ("ippo-no-mask", _IPPO, "rewards[t] + self.gamma * nextvalue * next_non_terminal - values[t]", "rewards[t] + self.gamma * nextvalue - values[t]", "fire", "C17.2"),
     ("rollout-done-after-update", _TOP, "                    dones.append(done)\n                    values.append(value)\n\n                    state = next_state\n                    done = next_done\n",
